@@ -119,6 +119,8 @@ class NDInterp(Interp):
         m['rot90'] = Builtin('np.rot90', s.np_rot90)
         m['pad'] = Builtin('np.pad', s.np_pad)
         m['gradient'] = Builtin('np.gradient', s.np_gradient)
+        m['where'] = Builtin('np.where', s.np_where)
+        m['concatenate'] = Builtin('np.concatenate', s.np_concatenate)
         m['convolve'] = Builtin('np.convolve', s.np_convolve)
         m['linalg'] = Module('linalg', {'norm': Builtin('norm', s.np_norm)})
         m['power'] = Builtin('np.power', lambda a, k: s.map2(lambda x, y: s.uf_app('power', x, y), s.asarr(a[0]), s.asarr(a[1])))
@@ -376,6 +378,9 @@ class NDInterp(Interp):
 
     def x_setitem(s, o, i, v):
         if isinstance(o, NDArr):
+            if isinstance(i, NDArr) and i.dtype == 'bool':
+                s.mask_store(o, i, v)
+                return True
             s.nd_store(s.nd_getitem(o, i, for_store=True), v)
             return True
         return NotImplemented
@@ -1172,6 +1177,89 @@ class NDInterp(Interp):
         out = s.fresh_buf(arr.shape, get, 'float', 'cumsum')
         out.ghost_prefix = (P, axis, arr)
         return out
+
+    def concrete_mask(s, v):
+        """1-d Boolean array all of whose elements are concrete -> python list of bools; else None"""
+        if not isinstance(v, NDArr) or len(v.shape) != 1 or not isinstance(v.shape[0], int):
+            return None
+        out = []
+        for j in range(v.shape[0]):
+            x = v.at(s, [j])
+            if isinstance(x, Sym):
+                t = z3.simplify(x.t)
+                if z3.is_true(t) or z3.is_false(t):
+                    x = z3.is_true(t)
+                else:
+                    return None
+            if not isinstance(x, bool):
+                return None
+            out.append(x)
+        return out
+
+    def np_where(s, a, k):
+        """np.where(cond) with one argument, for a 1-d mask whose entries are concrete: the tuple (indices of True,)"""
+        if len(a) != 1:
+            raise Unsupported('np.where with three arguments')
+        m = s.concrete_mask(a[0])
+        if m is None:
+            raise Unsupported('np.where on a mask with symbolic entries (needs rank/select reasoning)')
+        return (Vec([j for j, b in enumerate(m) if b], 'int'),)
+
+    def np_concatenate(s, a, k):
+        """np.concatenate of 1-d pieces of concrete lengths (lists / vectors / 1-d arrays)"""
+        parts = s.iter_(a[0])
+        if all(isinstance(p, (list, tuple, Vec)) for p in parts):
+            el = []
+            for p in parts:
+                el += list(p.elems) if isinstance(p, Vec) else list(p)
+            kind = 'int' if all(isinstance(x, int) and not isinstance(x, bool) or (isinstance(x, Sym) and x.kind == 'int') for x in el) else 'float'
+            return Vec(el, kind)
+        arrs = [s.to_ndarr(p).frozen() for p in parts]
+        if any(len(x.shape) != 1 or not isinstance(x.shape[0], int) for x in arrs):
+            raise Unsupported('np.concatenate of pieces with symbolic length')
+        offs, tot = [], 0
+        for x in arrs:
+            offs.append(tot)
+            tot += x.shape[0]
+
+        def get(idx):
+            kk = idx[0]
+            if isinstance(kk, int):
+                for x, o in zip(arrs, offs):
+                    if o <= kk < o + x.shape[0]:
+                        return x.at(s, [kk - o])
+                raise PyRaise('IndexError')
+            r = None
+            for x, o in reversed(list(zip(arrs, offs))):
+                for t in reversed(range(x.shape[0])):
+                    v = x.at(s, [t])
+                    r = v if r is None else s.ite(s.cmp('==', kk, o + t), v, r)
+            return r
+        return s.fresh_buf([tot], get, s.result_dtype(*arrs) if arrs else 'float', 'concatenate')
+
+    def mask_store(s, o, mask, rhs):
+        """o[mask] = rhs for a 1-d array o and a mask with concrete entries: the k-th True position receives rhs[k]"""
+        m = s.concrete_mask(mask)
+        if m is None or not o.is_whole() or len(o.shape) != 1:
+            raise Unsupported('Boolean-mask store with symbolic mask entries')
+        pos = [j for j, b in enumerate(m) if b]
+        rs, gr = s.as_operand(rhs)
+        if len(rs) > 1 or (len(rs) == 1 and not (isinstance(rs[0], int) and rs[0] in (1, len(pos)))):
+            raise PyRaise('ValueError', note='NumPy boolean array indexing assignment cannot assign the input values')
+        old = o.buf.get
+        conv = {'bool': s.asbool, 'int': s.trunc_int, 'float': s.to_float, 'complex': (lambda x: x)}[o.buf.dtype]
+        vals = [conv(gr([kq] if (len(rs) == 1 and rs[0] != 1) else ([0] if len(rs) == 1 else []))) for kq in range(len(pos))]
+
+        def get(b):
+            kk = b[0]
+            if isinstance(kk, int):
+                return vals[pos.index(kk)] if kk in pos else old(b)
+            r = old(b)
+            for pq, v in zip(pos, vals):
+                r = s.ite(s.cmp('==', kk, pq), v, r)
+            return r
+        o.buf.get = get
+        o.buf.version += 1
 
     def np_gradient(s, a, k):
         """[A] np.gradient(f, dx, edge_order=e) of a 1-d array of length m >= e + 1 with uniform spacing dx:
